@@ -955,7 +955,7 @@ copy (char *from, char *to)
   }
   if (!S_ISREG (from_stats.st_mode)) /* is regular file ? */
     {
-      error ("not a regular file: /%", from);
+      error ("not a regular file: /%s", from);
       return -1;
     }
 
